@@ -239,7 +239,7 @@ class PartyLoop(asyncio.AbstractEventLoop):
 
     async def create_connection(self, factory, host=None, port=None, ssl=None, server_hostname=None, **kw):
         w = self.world
-        if port not in w.listening or (w.refuse_prob and w.rng.random() < w.refuse_prob):
+        if port not in w.listening or w.listening[port][0] in w.crashed or (w.refuse_prob and w.rng.random() < w.refuse_prob):
             raise ConnectionRefusedError(port)
         spid, sfactory = w.listening[port]
         i, j = self.pid, spid
@@ -310,6 +310,7 @@ class VTransport:
         w, c = self.world, self.conn
         if c.src in w.crashed or c.closed:
             return
+        w.write_log[c.src].append((w.sent[c.src], len(data), c.dst))
         if w.crash_at is not None and c.src == w.crash_at[0]:
             room = w.crash_at[1] - w.sent[c.src]
             if len(data) >= room:
@@ -377,6 +378,7 @@ class World:
         self.pending_tasks = [set() for _ in range(m)]
         self.sched_hash = hashlib.blake2b(digest_size=8)
         self.forks = 0
+        self.write_log = collections.defaultdict(list)   # per source: (offset in its total outgoing stream, length, dst)
         self.deferred_bumps = set()
         self.tasks = None
         self.sched_log = [] if record_sched else None
